@@ -5,6 +5,8 @@ package config
 import (
 	"bytes"
 	"fmt"
+	"net/http"
+	"net/http/httptest"
 	"os"
 	"path/filepath"
 	"reflect"
@@ -319,6 +321,8 @@ func (l *c27listener) since(n int) []c27call {
 }
 
 type c27file struct {
+	srv     *c27server // non-nil: the source is served from this URL server
+	urlPath string
 	path    string
 	applied []byte // content the running config was built from
 	disk    []byte // nil = unreadable
@@ -338,7 +342,85 @@ type c27step struct {
 	Errors     []string `json:"reload_errors,omitempty"`
 }
 
-func c27write(t *testing.T, path string, content []byte) {
+// c27server serves config/rules sources over HTTP (a supported location kind). Its
+// handler can park exactly one request AFTER it has captured the body it is going to
+// send: that reloader has then "read" the old content and is slow, which lets the driver
+// change the source and run other reloads in between, deterministically.
+type c27server struct {
+	srv     *httptest.Server
+	mu      sync.Mutex
+	content map[string][]byte // URL path -> body; nil body = connection dropped (unreadable)
+	armed   string            // path whose next request is parked; "" = none
+	parked  chan struct{}     // closed when the armed request has captured its body
+	release chan struct{}     // closed by the driver to let the parked request answer
+}
+
+func c27newServer() *c27server {
+	s := &c27server{content: map[string][]byte{}}
+	s.srv = httptest.NewServer(http.HandlerFunc(func(w http.ResponseWriter, r *http.Request) {
+		s.mu.Lock()
+		body := s.content[r.URL.Path]
+		var rel chan struct{}
+		if s.armed == r.URL.Path {
+			s.armed = ""
+			rel = s.release
+			close(s.parked)
+		}
+		s.mu.Unlock()
+		if rel != nil {
+			<-rel
+		}
+		if body == nil {
+			if hj, ok := w.(http.Hijacker); ok {
+				if conn, _, err := hj.Hijack(); err == nil {
+					conn.Close()
+					return
+				}
+			}
+			w.WriteHeader(http.StatusInternalServerError)
+			return
+		}
+		w.Header().Set("Content-Type", "application/yaml")
+		w.Write(body)
+	}))
+	return s
+}
+
+func (s *c27server) set(path string, body []byte) {
+	s.mu.Lock()
+	s.content[path] = body
+	s.mu.Unlock()
+}
+
+// arm parks the next request for path; it returns the channel closed once that request
+// has captured its body, and the function that lets it answer (idempotent).
+func (s *c27server) arm(path string) (parked <-chan struct{}, release func()) {
+	s.mu.Lock()
+	defer s.mu.Unlock()
+	s.armed = path
+	s.parked = make(chan struct{})
+	rel := make(chan struct{})
+	s.release = rel
+	var once sync.Once
+	return s.parked, func() {
+		once.Do(func() {
+			s.mu.Lock()
+			if s.armed == path {
+				s.armed = ""
+			}
+			s.mu.Unlock()
+			close(rel)
+		})
+	}
+}
+
+// c27write publishes content at the source: a file (written atomically) or a URL body.
+func c27write(t *testing.T, f *c27file, content []byte) {
+	if f.srv != nil {
+		f.srv.set(f.urlPath, content)
+		return
+	}
+	path := f.path
 	// a directory may be sitting in the file's place
 	if st, err := os.Lstat(path); err == nil && st.IsDir() {
 		if err := os.Remove(path); err != nil {
@@ -354,7 +436,12 @@ func c27write(t *testing.T, path string, content []byte) {
 	}
 }
 
-func c27makeUnreadable(t *testing.T, path string, asDir bool) {
+func c27makeUnreadable(t *testing.T, f *c27file, asDir bool) {
+	if f.srv != nil {
+		f.srv.set(f.urlPath, nil)
+		return
+	}
+	path := f.path
 	if st, err := os.Lstat(path); err == nil && st.IsDir() {
 		if !asDir {
 			os.Remove(path)
@@ -405,7 +492,7 @@ func c27parked() int {
 func TestVerif_C27(t *testing.T) {
 	run := verifkit.Start(t, "C27", "config")
 	defer run.Finish()
-	run.Rule("seeded histories over a real fileConfig on temp files: per step each config file and the rules file get one of {unchanged, restore-applied, valid change, deprecated-setting (warning) change, validation-invalid, unparsable, unreadable}; startup acceptance is measured with NewConfig on the same files and the same version string; Reload is triggered once, from 2-8 goroutines at once, or from 2-8 goroutines under lock pinning (driver holds the config's read lock until runtime.Stack shows every reloader returned or parked on a sync primitive below Reload); non-trivial = history with at least one applied and one refused change; distinct = distinct (kinds, mode) step sequences")
+	run.Rule("seeded histories over a real fileConfig on temp files: per step each config file and the rules file get one of {unchanged, restore-applied, valid change, deprecated-setting (warning) change, validation-invalid, unparsable, unreadable}; startup acceptance is measured with NewConfig on the same files and the same version string; Reload is triggered once, from 2-8 goroutines at once, from 2-8 goroutines under lock pinning (driver holds the config's read lock until runtime.Stack shows every reloader returned or parked on a sync primitive below Reload), or as a stale-read overlap (sources served from an httptest URL; one reloader is held inside its read after the handler captured the old body, the sources are then changed and 1-3 further reloaders run until returned/parked, the first is released, all are joined, then one quiet reload); non-trivial = history with at least one applied and one refused change; distinct = distinct (kinds, mode) step sequences")
 	run.Assume("NewConfig(opts, version) on the same files in the same step is what 'startup would accept' means; the version string is the one the instance was started with")
 	run.Assume("a changed file always differs in a configuration value (comment-only edits are not generated)")
 
@@ -444,6 +531,20 @@ func c27history(t *testing.T, run *verifkit.Run, rng *verifkit.Rand) {
 		cfgs[j] = &c27file{path: filepath.Join(dir, fmt.Sprintf("config%d.yaml", j))}
 	}
 	rules := &c27file{path: filepath.Join(dir, "rules.yaml")}
+	// some histories read the first config (and maybe the rules) from a URL, which gives
+	// the driver a read point it can hold open (mode "stale-read")
+	var srv *c27server
+	var urlSources []*c27file
+	if rng.Chance(0.45) {
+		srv = c27newServer()
+		defer srv.srv.Close()
+		cfgs[0].srv, cfgs[0].urlPath, cfgs[0].path = srv, "/config0.yaml", srv.srv.URL+"/config0.yaml"
+		urlSources = append(urlSources, cfgs[0])
+		if rng.Bool() {
+			rules.srv, rules.urlPath, rules.path = srv, "/rules.yaml", srv.srv.URL+"/rules.yaml"
+			urlSources = append(urlSources, rules)
+		}
+	}
 	k0 := fresh()
 	cfgs[0].disk, cfgs[0].kc = []byte(c27cfgValid(k0, "")), k0
 	if nCfg == 2 {
@@ -453,7 +554,7 @@ func c27history(t *testing.T, run *verifkit.Run, rng *verifkit.Rand) {
 	kr := fresh()
 	rules.disk, rules.kc = []byte(c27rulesValid(kr)), kr
 	for _, f := range append(append([]*c27file{}, cfgs...), rules) {
-		c27write(t, f.path, f.disk)
+		c27write(t, f, f.disk)
 		f.applied = f.disk
 		f.kcOK = true
 	}
@@ -526,6 +627,54 @@ func c27history(t *testing.T, run *verifkit.Run, rng *verifkit.Rand) {
 		}
 		rec := c27step{Step: st}
 
+		mode := verifkit.Pick(rng, "single", "single", "concurrent", "pinned")
+		if srv != nil && rng.Chance(0.45) {
+			mode = "stale-read"
+		}
+		// ---- stale-read, first half: reloader R1 reads the sources as they are NOW and
+		// is held inside its read of one URL source (the handler has already captured the
+		// old body); only then are the sources rewritten below.
+		var r1Done chan error
+		releaseR1 := func() {}
+		// Sources are read in order (config files, then rules). Only sources R1 has already
+		// read when it is parked may change in a stale-read step, so that R1's view is one
+		// consistent (old) state and not a mix the non-atomic rewrite never contained.
+		armedIdx := nCfg
+		// The parked read must be of a source that is readable right now: for a dropped
+		// connection the HTTP client retries the GET after the release and would then read
+		// the NEW body, i.e. a mix of old and new that the sources never held.
+		var armable []*c27file
+		for _, f := range urlSources {
+			if f.disk != nil {
+				armable = append(armable, f)
+			}
+		}
+		if mode == "stale-read" && len(armable) == 0 {
+			mode = "concurrent"
+		}
+		if mode == "stale-read" {
+			armed := armable[rng.Intn(len(armable))]
+			if armed != rules {
+				armedIdx = 0
+			}
+			parked, rel := srv.arm(armed.urlPath)
+			releaseR1 = rel
+			r1Done = make(chan error, 1)
+			go func() { r1Done <- c.Reload() }()
+			select {
+			case <-parked: // R1 holds the old content of the armed source
+				run.Count("stale_read_reloader_parked_in_read", 1)
+			case err := <-r1Done: // R1 failed before reaching the armed source
+				r1Done <- err
+				rel()
+			case <-time.After(60 * time.Second):
+				rel()
+				run.Inconclusive("stale-read: first reloader neither reached its read nor returned")
+				return
+			}
+		}
+		defer releaseR1()
+
 		// ---- rewrite the files
 		pickCfgKind := func() c27kind {
 			switch x := rng.Intn(20); {
@@ -549,6 +698,9 @@ func c27history(t *testing.T, run *verifkit.Run, rng *verifkit.Rand) {
 			kind := pickCfgKind()
 			if j == 1 && kind == c27Warn {
 				kind = c27Valid
+			}
+			if mode == "stale-read" && j > armedIdx {
+				kind = c27Unchanged
 			}
 			rec.CfgKinds = append(rec.CfgKinds, string(kind))
 			k := fresh()
@@ -583,9 +735,9 @@ func c27history(t *testing.T, run *verifkit.Run, rng *verifkit.Rand) {
 			}
 			if kind != c27Unchanged {
 				if f.disk == nil {
-					c27makeUnreadable(t, f.path, rng.Bool())
+					c27makeUnreadable(t, f, rng.Bool())
 				} else {
-					c27write(t, f.path, f.disk)
+					c27write(t, f, f.disk)
 				}
 			}
 		}
@@ -604,6 +756,9 @@ func c27history(t *testing.T, run *verifkit.Run, rng *verifkit.Rand) {
 				kind = c27Unparsable
 			default:
 				kind = c27Unreadable
+			}
+			if mode == "stale-read" && nCfg > armedIdx {
+				kind = c27Unchanged
 			}
 			rec.RulesKind = string(kind)
 			k := fresh()
@@ -626,9 +781,9 @@ func c27history(t *testing.T, run *verifkit.Run, rng *verifkit.Rand) {
 			}
 			if kind != c27Unchanged {
 				if rules.disk == nil {
-					c27makeUnreadable(t, rules.path, rng.Bool())
+					c27makeUnreadable(t, rules, rng.Bool())
 				} else {
-					c27write(t, rules.path, rules.disk)
+					c27write(t, rules, rules.disk)
 				}
 			}
 		}
@@ -668,9 +823,10 @@ func c27history(t *testing.T, run *verifkit.Run, rng *verifkit.Rand) {
 		}
 
 		// ---- trigger
-		mode := verifkit.Pick(rng, "single", "single", "concurrent", "pinned")
 		g := 1
-		if mode != "single" {
+		if mode == "stale-read" {
+			g = rng.Range(1, 3) // reloaders started after the change, besides R1
+		} else if mode != "single" {
 			g = rng.Range(2, 8)
 		}
 		rec.Mode, rec.Goroutines = mode, g
@@ -719,6 +875,47 @@ func c27history(t *testing.T, run *verifkit.Run, rng *verifkit.Rand) {
 				return
 			}
 			run.Count("pinned_steps", 1)
+		case "stale-read":
+			// second half: reloaders that read the NEW content run while R1 is still
+			// inside its read. They may finish on their own or have to wait for R1 (both
+			// fine); R1 is released only once each has returned or is parked on a sync
+			// primitive below Reload (runtime.Stack, no timing).
+			var wg sync.WaitGroup
+			var done atomic.Int32
+			for r := 0; r < g; r++ {
+				wg.Add(1)
+				go func(r int) {
+					defer wg.Done()
+					errs[r] = c.Reload()
+					done.Add(1)
+				}(r)
+			}
+			settled := false
+			for tries := 0; tries < 200000; tries++ {
+				d := int(done.Load())
+				if d+c27parked() >= g {
+					settled = true
+					break
+				}
+				time.Sleep(200 * time.Microsecond) // poll pacing only; never decides a verdict
+			}
+			if int(done.Load()) < g {
+				run.Count("stale_read_later_reloaders_waited_for_first", 1)
+			} else {
+				run.Count("stale_read_later_reloaders_finished_first", 1)
+			}
+			releaseR1()
+			r1Err := <-r1Done
+			wg.Wait()
+			if !settled {
+				run.Inconclusive("stale-read: later reloaders never all parked/returned")
+				return
+			}
+			if r1Err != nil && errs[0] == nil {
+				errs[0] = r1Err
+			}
+			run.Count("stale_read_steps", 1)
+			run.Count("reload_calls", 1)
 		}
 		for _, e := range errs {
 			if e != nil {
@@ -745,7 +942,11 @@ func c27history(t *testing.T, run *verifkit.Run, rng *verifkit.Rand) {
 				"config_on_disk": c27diskText(cfgs), "rules_on_disk": c27diskText([]*c27file{rules})}
 		}
 		conc := ""
-		if mode != "single" {
+		switch mode {
+		case "single":
+		case "stale-read":
+			conc = "stale-read-"
+		default:
 			conc = "concurrent-"
 		}
 		switch {
@@ -768,7 +969,7 @@ func c27history(t *testing.T, run *verifkit.Run, rng *verifkit.Rand) {
 				}
 			}
 		case expectApply && gotOld:
-			if refErr != nil {
+			if refErr != nil && mode != "stale-read" {
 				run.Violation("C27/Reload/warning-only-change-not-applied",
 					"startup (NewConfig on the same files) accepts the changed files with warnings, Reload applied nothing",
 					witness(c27diffText(c27diff(after, refSnap), after, refSnap)...))
@@ -794,6 +995,29 @@ func c27history(t *testing.T, run *verifkit.Run, rng *verifkit.Rand) {
 			if changed || !readable {
 				refusedSome = true
 				run.Count("changes_refused", 1)
+			}
+		}
+
+		// ---- stale-read: a further, quiet reload must find nothing left to do when the
+		// change was applied (its callbacks also count into the per-change total below)
+		if mode == "stale-read" {
+			qmarks := make([]int, len(listeners))
+			for li, l := range listeners {
+				qmarks[li] = l.n()
+			}
+			_ = c.Reload()
+			run.Count("reload_calls", 1)
+			for li, l := range listeners {
+				if n := l.n() - qmarks[li]; n != 0 && (!expectApply || gotNew) {
+					run.Violation("C27/Reload/quiet-reload-after-overlap-notifies-again",
+						fmt.Sprintf("after the overlapping reloads finished (getters showed the newest content: %v), a reload with unchanged sources called listener %d %d more time(s)", gotNew, li, n), witness())
+				}
+			}
+			if expectApply && gotNew {
+				if d := c27diff(c27snapshot(c), refSnap); len(d) != 0 {
+					run.Violation("C27/Reload/quiet-reload-after-overlap-changes-config",
+						"a reload with unchanged sources changed the getters", witness(c27diffText(d, c27snapshot(c), refSnap)...))
+				}
 			}
 		}
 
